@@ -138,6 +138,12 @@ class C16(Property):
         for m in g.MODES:   # F13 witness: nearly collinear perfect curve whose f32 denominator is exactly 0
             for L in (None, 50.0):
                 cases.append(Case(g.curve_line(cmd, m, L, [(404.0, -3.0, "P"), (279.0, 148.9139862060547, None), (358.74554443359375, 51.998291015625, None)]), tags=("witness-F13",)))
+        # finding F23: finite control points beyond the f32 resolution the flatness test needs (|x| >= 2^22). Most of these never
+        # return in the real crate (the request carries its own 2 s limit; the model side is the kernel-checked divergence
+        # theorem C16.bsplineLoop_diverges_float32, not a driver run: 2 * 10^6 rounds of fuel take the driver 20 s), the others
+        # are judged by the oracle like any curve.
+        for _ in range(1 if tier == "quick" else 12):
+            cases.append(Case("limit=2 " + g.curve_line(cmd, rng.choice(g.MODES), None, g.huge_bezier_points(rng)), corr=False, tags=("huge-bezier-F23",)))
         # hostile coordinates: correspondence only
         for _ in range(100):
             pts = g.rand_points(rng)
@@ -163,6 +169,10 @@ class C16(Property):
         if "nonfinite-natural-path" in out and g.ill_conditioned_arc_predicate(case.line):
             for f in findings:
                 if f.get("predicate") == "ill_conditioned_arc":
+                    return f["id"]
+        if out.startswith("TIMEOUT") and g.bezier_beyond_f32_resolution_predicate(case.line):
+            for f in findings:
+                if f.get("predicate") == "bezier_beyond_f32_resolution":
                     return f["id"]
         if "cut-overshoots-simplified-segment" in out and g.cut_overshoot_predicate(case.line, core.run_impl):
             for f in findings:
